@@ -235,6 +235,7 @@ type Sym struct {
 func defaultPure(name string) bool {
 	switch {
 	case strings.HasPrefix(name, "(time.Time)."), strings.HasPrefix(name, "strings."), strings.HasPrefix(name, "builtin:len"), strings.HasPrefix(name, "builtin:cap"),
+		strings.HasSuffix(name, "asn1.ObjectIdentifier).Equal"), strings.HasSuffix(name, "asn1.ObjectIdentifier).String"),
 		strings.HasPrefix(name, "(net.IP)."), strings.HasPrefix(name, "(*net.IPNet).Contains"), strings.HasPrefix(name, "(*math/big.Int).BitLen"), strings.HasPrefix(name, "(*math/big.Int).Cmp"):
 		return true
 	}
@@ -438,6 +439,8 @@ func (sy *Sym) execFrom(fn *ssa.Function, b *ssa.BasicBlock, start int, st *symS
 			case token.MUL:
 				if v, ok := st.mem[a.String()]; ok {
 					st.env[x] = v
+				} else if v := loadFromAggregate(st, a, x.Type()); v != nil {
+					st.env[x] = v
 				} else if a.Op == "obj" || rootsAtObj(a) {
 					// never-written cell of a fresh object: the zero value
 					st.env[x] = zeroTerm(x.Type(), a)
@@ -534,6 +537,39 @@ func (sy *Sym) execFrom(fn *ssa.Function, b *ssa.BasicBlock, start int, st *symS
 			return
 		}
 	}
+}
+
+// loadFromAggregate: a field (of a field ...) of a local object into which a
+// whole struct value V was stored reads as V.f.g.
+func loadFromAggregate(st *symState, a *T, typ types.Type) *T {
+	var fields []string
+	cur := a
+	for cur != nil && cur.Op == "faddr" {
+		fields = append([]string{cur.Name}, fields...)
+		cur = cur.Args[0]
+		if v, ok := st.mem[cur.String()]; ok {
+			if v.Op == "havoc" {
+				return nil
+			}
+			s := v.String()
+			for _, f := range fields {
+				s += "." + f
+			}
+			return &T{Op: "field", Name: fields[len(fields)-1], Args: []*T{v}, Typ: typ, s: s}
+		}
+	}
+	return nil
+}
+
+// isAddr: the term denotes an address (of a local object or one of its parts).
+func isAddr(a *T) bool {
+	if a.Op == "faddr" || a.Op == "iaddr" {
+		return true
+	}
+	if a.Op == "obj" {
+		return strings.HasPrefix(a.String(), "&")
+	}
+	return false
 }
 
 func rootsAtObj(a *T) bool {
@@ -741,6 +777,19 @@ func (sy *Sym) execCall(fn *ssa.Function, b *ssa.BasicBlock, i int, x *ssa.Call,
 			t.Seq = st.seq[name] - 1
 		}
 		st.trace = append(st.trace, Event{Kind: "call", Name: name, Args: args, Result: t, Pos: x.Pos()})
+		// a callee given the address of a fresh object may write it: what is
+		// read from it afterwards is whatever that call left there
+		for _, a := range args {
+			if a.Op != "const" && rootsAtObj(a) && isAddr(a) {
+				key := a.String()
+				for k := range st.mem {
+					if k == key || strings.HasPrefix(k, key+".") || strings.HasPrefix(k, key+"[") {
+						delete(st.mem, k)
+					}
+				}
+				st.mem[key] = &T{Op: "havoc", Name: name, Args: []*T{a}, Seq: t.Seq, Typ: a.Typ, s: fmt.Sprintf("written-by:%s#%d(%s)", name, t.Seq, key)}
+			}
+		}
 	}
 	st.env[x] = t
 	sy.execFrom(fn, b, i+1, st, depth, k)
